@@ -105,6 +105,51 @@ Definition open_db (name : N) (fail : bool) (s : cstate) : cstate * cres * list 
         end
   end.
 
+(* openDB as two critical sections: the mutex is released around the underlying p.OpenDB(name).
+   [open_begin] = first section (notDropped, cache lookup; a hit finishes the call: Some result);
+   [open_finish] = last section, after the underlying open returned store uid.
+   Sequentially open_db = begin; underlying open; finish (CachedProducerProofs.open_db_split).
+   Between the two sections another goroutine's openDB(name) can run: both miss, both open. *)
+Definition open_begin (name : N) (s : cstate) : cstate * option cres :=
+  if nd_nil s then (die s, Some RPanic) else
+  let nd := if nmem name (notdropped s) then notdropped s else name :: notdropped s in
+  match alookup name (opened s) with
+  | Some uid =>
+      match ref_incr name s with
+      | Some rc => (mkC (kind s) (opened_nil s) (nd_nil s) (opened s) (ref_nil s) rc nd (handles s) (next_uid s) false, Some (RHandle uid))
+      | None => (mkC (kind s) (opened_nil s) (nd_nil s) (opened s) (ref_nil s) (refc s) nd (handles s) (next_uid s) true, Some RPanic)
+      end
+  | None => (mkC (kind s) (opened_nil s) (nd_nil s) (opened s) (ref_nil s) (refc s) nd (handles s) (next_uid s) false, None)
+  end.
+
+(* the counting producer hands out the next store id *)
+Definition under_open (s : cstate) : cstate * N :=
+  (mkC (kind s) (opened_nil s) (nd_nil s) (opened s) (ref_nil s) (refc s) (notdropped s) (handles s) (next_uid s + 1) (dead s),
+   next_uid s).
+
+Definition open_finish (name uid : N) (s : cstate) : cstate * cres :=
+  let hs := (uid, name) :: handles s in
+  if opened_nil s then
+    (mkC (kind s) (opened_nil s) (nd_nil s) (opened s) (ref_nil s) (refc s) (notdropped s) hs (next_uid s) true, RPanic)
+  else
+  let op' := aset name uid (opened s) in
+  match ref_incr name s with
+  | Some rc => (mkC (kind s) (opened_nil s) (nd_nil s) op' (ref_nil s) rc (notdropped s) hs (next_uid s) false, RHandle uid)
+  | None => (mkC (kind s) (opened_nil s) (nd_nil s) op' (ref_nil s) (refc s) (notdropped s) hs (next_uid s) true, RPanic)
+  end.
+
+(* two OpenDB(name) calls, the second issued while the first is inside the underlying open:
+   begin1, under1 (blocks), the whole second call, finish1 *)
+Definition open_overlap (name : N) (s : cstate) : cstate * cres * cres * list uevent :=
+  match open_begin name s with
+  | (s1, Some r1) => let '(s2, r2, ev) := open_db name false s1 in (s2, r1, r2, ev)
+  | (s1, None) =>
+      let '(s2, u1) := under_open s1 in
+      let '(s3, r2, ev2) := open_db name false s2 in
+      let '(s4, r1) := open_finish name u1 s3 in
+      (s4, r1, r2, UOpen name u1 :: ev2)
+  end.
+
 (* CloseFn of the handle (uid, name) *)
 Definition close_h (uid name : N) (s : cstate) : cstate * cres * list uevent :=
   let counter := count_of name s in
